@@ -253,6 +253,31 @@ def run_case(case: dict) -> dict:
             sigs.append([fmt, shape, point["syscall"], point["when"], "boundary"])
             for key, msg in problems:
                 violations.append({"key": f"{key}/{role(point['target'])}", "msg": f"{label}: {msg}"})
+            # ---- life goes on after a crash: a later session into the same place must not destroy what was
+            #      committed before the crash (recovery code, clean-ups and "finish the interrupted update"
+            #      heuristics run exactly here)
+            if obs["crash_states_audited"] % 3 == 0 and (root_has_description(state)):
+                recovery_dir = work / "recovery"
+                common.rm(recovery_dir)
+                shutil.copytree(state, recovery_dir)
+                rec_writes = [[s, dsmod.make_id(s, 3, 0, k)] for k, s in enumerate(["train", "train", "test", "holdout"])]
+                recovery = dict(crash, session=3, writes=rec_writes, create=None) if crash["kind"] != "multi" else \
+                    {"kind": "root", "session": 3, "writes": rec_writes}
+                recovery.pop("create", None)
+                answer2 = request({"root": str(recovery_dir), "session": recovery, "inject": None,
+                                   "log": str(work / "r.log"), "untraced": True, "timeout": 60})
+                obs["recovery_sessions"] += 1
+                if answer2.get("exit") == 0:
+                    obs["recovery_sessions_completed"] += 1
+                    after_ids = {s: committed_ids[s] + Counter(i for sp, i in rec_writes if sp == s) for s in dsmod.SPLITS}
+                    for key, msg in audit_state(recovery_dir, after_ids, attempted):
+                        violations.append({"key": f"after-recovery-session/{key}/{role(point['target'])}",
+                                           "msg": f"{label}; then a normal session: {msg}"})
+                else:
+                    obs["recovery_sessions_refused"] += 1
+                    for key, msg in audit_state(recovery_dir, committed_ids, attempted | {i for _, i in rec_writes}):
+                        violations.append({"key": f"after-failed-recovery-session/{key}/{role(point['target'])}",
+                                           "msg": f"{label}; then a session that raised: {msg}"})
             # torn variants of the write that completed immediately before the kill.  Everything is read from
             # the crashed run's OWN trace (never matched against the reference run by counters or guessed by
             # modification time): if the last dataset-touching call before the killed one is a write, the
@@ -297,6 +322,10 @@ def run_case(case: dict) -> dict:
                            "some_points": [[p["syscall"], p["when"], p["target"][-40:]] for p in points[:6]]}}
     finally:
         common.rm(work)
+
+
+def root_has_description(root: Path) -> bool:
+    return (root / "dataset_info.json").is_file()
 
 
 def role(target: str) -> str:
